@@ -15,7 +15,7 @@ SPEC = {
             '(tombstones); 1 layer read directly (GoMemDB or on-disk GoLevelDB), 1 layer through NewMergedIteratorDB, and 2 / 3 merged '
             'layers sharing one key pool (so that keys collide across layers); for every set: the paging client (continue from the '
             'last returned key; the key is recovered from the item as a client does) with every page size 0..|keys under prefix|+1 in '
-            'the direction words 0,1,4,5,8,9 and one odd word (3,6,7,10..13); PrefixCount for 3 prefixes; 14 single List calls with '
+            'the direction words 0,1,4,5,8,9 and one odd word (3,6,7,10..13); PrefixCount for 3 prefixes; 9 single List calls with '
             'arbitrary keys (stored, tombstoned, absent, outside the prefix), counts -1..|set|+1 and direction words 0..15 incl. the '
             '"seek" request (count 1, word 2). Unrestricted streams: the prefix whose upper bound is types.EmptyValue (known finding 1) '
             'and key sets containing the empty key (known finding 2). non-trivial = the implementation returned at least one item / '
